@@ -168,13 +168,21 @@ func refScore(c, p []int, maxInd float64) (score *big.Rat, inf bool, ok bool) {
 	if tol.Sign() == 0 {
 		tol = big.NewRat(1, 1_000_000_000)
 	}
+	// When the unit width and the limit are dyadic rationals with small exponents, every intermediate
+	// value of any evaluation order is exactly representable in float64, so the comparison on the
+	// boundary itself is decisive: "deviates by more than the allowed variance" is false at equality.
+	dyadic := func(r *big.Rat) bool {
+		d := r.Denom()
+		return d.BitLen() <= 20 && new(big.Int).And(d, new(big.Int).Sub(d, big.NewInt(1))).Sign() == 0
+	}
+	exactArith := dyadic(u) && dyadic(new(big.Rat).SetFloat64(maxInd))
 	isInf := false
 	for i := range c {
 		v := new(big.Rat).Mul(big.NewRat(int64(p[i]), 1), u)
 		v.Sub(big.NewRat(int64(c[i]), 1), v)
 		v.Abs(v)
 		d := new(big.Rat).Sub(v, lim)
-		if new(big.Rat).Abs(d).Cmp(tol) <= 0 {
+		if new(big.Rat).Abs(d).Cmp(tol) <= 0 && !(exactArith && d.Sign() == 0) {
 			return nil, false, false
 		}
 		if d.Sign() > 0 {
@@ -244,6 +252,9 @@ func classify(c VCase) (class string, nontrivial bool) {
 	if inf {
 		return "inf_individual", true
 	}
+	if onBoundary(c) {
+		return "exactly_on_limit", true
+	}
 	exact := total%plen == 0
 	if exact {
 		k := total / plen
@@ -257,6 +268,29 @@ func classify(c VCase) (class string, nontrivial bool) {
 		return "exact_multiple", false
 	}
 	return "finite_inexact", true
+}
+
+// onBoundary reports whether some run deviates by exactly the allowed individual variance.
+func onBoundary(c VCase) bool {
+	total, plen := 0, 0
+	for i := range c.Counters {
+		total += c.Counters[i]
+		plen += c.Pattern[i]
+	}
+	if total < plen || plen == 0 {
+		return false
+	}
+	u := big.NewRat(int64(total), int64(plen))
+	lim := new(big.Rat).SetFloat64(c.MaxInd)
+	lim.Mul(lim, u)
+	for i := range c.Counters {
+		v := new(big.Rat).Mul(big.NewRat(int64(c.Pattern[i]), 1), u)
+		v.Sub(big.NewRat(int64(c.Counters[i]), 1), v)
+		if v.Abs(v).Cmp(lim) == 0 {
+			return true
+		}
+	}
+	return false
 }
 
 type table struct {
@@ -279,7 +313,7 @@ func tables() []table {
 	return out
 }
 
-var limits = []float64{0.7, 0.5, 0.78, 0.45, 0.2, 1.0, 0.0}
+var limits = []float64{0.7, 0.5, 0.78, 0.45, 0.2, 1.0, 0.0, 0.25}
 
 func TestCheck(t *testing.T) {
 	hx.Main(t, "C20", func(c *hx.Ctx) {
